@@ -5,16 +5,16 @@ AllRels == Rels
 \* two-class programs: every relation
 Rel2 == <<{}, <<AllRels>>>>
 \* three-class programs: chains, two bases, member-of-derived
-Rel3 == <<{}, <<{"none", "base_pub", "base_prot", "base_vpub", "member"}>>,
-          <<{"none", "base_pub", "base_vpub"}, {"none", "base_pub", "base_priv", "member"}>>>>
+Rel3 == <<{}, <<{"none", "base_pub", "base_prot", "base_vpub", "member", "arrmember"}>>,
+          <<{"none", "base_pub", "base_vpub", "staticmember"}, {"none", "base_pub", "base_priv", "member", "arrmember"}>>>>
 
 \* later classes are mostly implicit: what they inherit is the point
 LaterSmall == {<<d, c, T0, v>> : d \in {D0, <<"default", "pub">>}, c \in {D0, <<"default", "pub">>},
-                                  v \in {"none", "over"}}
+                                  v \in {"none", "over", "overc"}}
 LaterBig == {<<d, c, t, v>> : d \in {D0, <<"default", "pub">>, <<"user", "pub">>},
                               c \in {D0, <<"default", "pub">>},
                               t \in {T0, <<"user", "pub", FALSE>>},
-                              v \in {"none", "over", "pure"}}
+                              v \in {"none", "over", "overc", "pure"}}
 Rel3q == <<{}, <<{"base_pub", "base_vpub", "member"}>>,
            <<{"none", "base_pub"}, {"none", "base_pub", "member"}>>>>
 
